@@ -171,12 +171,24 @@ macro_rules! real_lane {
             ends[i] = ends[i - 1]; // duplicate breakpoint
         }
         ends.sort_by(|a, b| a.partial_cmp(b).unwrap());
+        if r.chance(0.15) {
+            // open-ended last piece, as a user writes it: end = +inf (or just huge)
+            let l = ends.len() - 1;
+            ends[l] = if r.chance(0.7) { f64::INFINITY } else { 1e200 };
+            m.count("open_ended_last_piece");
+        }
         let coeffs: Vec<Vec<f64>> = (0..ends.len()).map(|_| (0..<$t as Nums>::LEN).map(|_| match r.below(4) { 0 => r.small_int(5), 1 => 0.0, _ => r.mixed(2.0) }).collect()).collect();
         let pw: Piecewise<$t> = pw_from(&ends, &coeffs);
         let inside = r.chance(0.75);
-        let kx = if inside {
+        let kx = if !(ends[0].abs() < 1e6) {
+            if log { r.uniform(0.3, 3.0) } else { r.uniform(-3.0, 3.0) }
+        } else if inside {
             if log { ends[0] * r.uniform(0.3, 1.0) } else { ends[0] - r.uniform(0.0, 3.0) }
-        } else if log { r.uniform(0.5, 3.0) * ends[ends.len() - 1] } else { ends[ends.len() - 1] + r.uniform(-1.0, 2.0) };
+        } else {
+            // knot outside the first piece: relative to the last breakpoint that is an ordinary finite number
+            let lf = ends.iter().rev().find(|e| e.abs() < 1e6).copied().unwrap_or(if log { 1.0 } else { 0.0 });
+            if log { r.uniform(0.5, 3.0) * lf } else { lf + r.uniform(-1.0, 2.0) }
+        };
         let k = Knot { x: kx, y: match r.below(3) { 0 => 0.0, 1 => 2.0, _ => r.mixed(2.0) } };
         emit_lane!(m, $sink, r, $t, $kind, $deg, pw, k, "generated");
     }};
@@ -213,7 +225,7 @@ fn canaries11(m: &mut Mon, sink: &mut Sink) {
 pub const FLOORS: &[&str] = &[
     "probe_functions", "probe_duplicate_breakpoints", "iterator_variants_compared", "single_piece", "duplicate_breakpoints",
     "knot_inside_first_piece", "knot_outside_first_piece", "real:poly:0", "real:poly:7", "real:log:0", "real:log:4", "real:log:8",
-    "continuity_checked", "global_integral_checked", "antiderivative_checked",
+    "continuity_checked", "global_integral_checked", "antiderivative_checked", "open_ended_last_piece",
     "origin:pipeline_spline", "origin:pipeline_linear", "origin:pipeline_spline_derivative",
 ];
 
